@@ -145,8 +145,9 @@ def correspondence(ctx):
     entries = []
     for h, t in cases:
         frac = rng.random() < 0.08
+        style = ul.rand_style(rng, 0.6)
         try:
-            obs = ul.run_tree(h, t, frac)
+            obs = ul.run_tree(h, t, frac, style=style)
         except ul.CaseInvalid:
             res.count("skipped:unit-string-not-parsed-as-intended")
             continue
@@ -172,7 +173,9 @@ def correspondence(ctx):
 
         def mk(enc, h=h, t=t, obs=obs, shown=shown, frac=frac):
             return "({}, {}, {}, {}, {})".format(enc.history(h), enc.tree(t), enc.obs(obs), enc.opt_umap(shown), coq_bool(frac))
-        entries.append((mk, {"kind": "tree", "case": {"history": h, "tree": t, "frac": frac}}))
+        entries.append((mk, {"kind": "tree", "case": {"history": h, "tree": t, "frac": frac, "style": style}}))
+        for k_, v_ in (style or {"plain": 1}).items():
+            res.count("style:{}={}".format(k_, v_))
     # recalculate() after the definitions changed
     rec_entries = []
     for _ in range(ctx.n(150, 1500)):
@@ -232,15 +235,16 @@ def correspondence(ctx):
         sessions.append(ul.gen_session(rng))
     se_entries = []
     for steps in sessions:
+        style = ul.rand_style(rng, 0.6)
         try:
-            obs = ul.run_session(steps)
+            obs = ul.run_session(steps, style)
         except ul.CaseInvalid:
             res.count("skipped:unit-string-not-parsed-as-intended")
             continue
         if any(o.get("exc") == "crash" for o in obs):
             res.evaluations += len(obs)
             res.disagreements.append({"name": "the implementation raised {} where the model returns".format(
-                [o["what"] for o in obs if o.get("exc") == "crash"][0]), "kind": "session", "case": {"steps": steps}})
+                [o["what"] for o in obs if o.get("exc") == "crash"][0]), "kind": "session", "case": {"steps": steps, "style": style}})
             continue
         if not all(o["exact"] for o in obs):
             res.count("skipped:inexact-float-exponent")
@@ -258,7 +262,7 @@ def correspondence(ctx):
 
         def mk(enc, steps=steps, obs=obs, showns=showns):
             return enc.session(steps, obs, showns)
-        se_entries.append((mk, {"kind": "session", "case": {"steps": steps}}))
+        se_entries.append((mk, {"kind": "session", "case": {"steps": steps, "style": style}}))
     df_entries = []
     for _ in range(ctx.n(100, 1000)):
         h = ul.rand_history(rng, malformed=rng.random() < 0.3)
@@ -309,7 +313,7 @@ def correspondence(ctx):
 def check_case(case):
     if "steps" in case:
         # define / clear / use steps executed in ONE fresh library state (run_session starts with core.fresh_impl())
-        return ul.oracle_session(case["steps"])
+        return ul.oracle_session(case["steps"], case.get("style"))
     if "session" in case:
         # several (history, tree) cases evaluated one after the other in ONE fresh library state; the last one is judged
         core.fresh_impl()
@@ -317,7 +321,7 @@ def check_case(case):
         for c in case["session"]:
             why = check_case(c)
         return "after {} earlier operation(s) in the same interpreter: {}".format(len(case["session"]) - 1, why) if why else None
-    why = ul.oracle_check(case.get("history", []), case["tree"], case.get("frac", False))
+    why = ul.oracle_check(case.get("history", []), case["tree"], case.get("frac", False), case.get("style"))
     if why:
         return why
     if case.get("clear"):
@@ -332,7 +336,7 @@ def fails_alone(case):
 
 def report(case, why, journal=()):
     if "steps" in case:
-        small = {"steps": ul.shrink_session(case["steps"])}      # every candidate starts from a fresh library state
+        small = dict(case, steps=ul.shrink_session(case["steps"], case.get("style")))      # every candidate starts from a fresh library state
         return Violation(ID, "session", small, check_case(small) or why)
     if not fails_alone(case):
         # fine on its own: it fails because of what ran before it in this process -> the earlier cases become part of the input
@@ -358,12 +362,12 @@ def search(ctx, suspects, budget):
     for s in suspects:
         c = s.get("case")
         if c and s.get("kind") in ("tree", "recalc"):
-            todo.append({"history": c.get("history", []), "tree": c["tree"], "frac": c.get("frac", False)})
+            todo.append({"history": c.get("history", []), "tree": c["tree"], "frac": c.get("frac", False), "style": c.get("style")})
         elif c and s.get("kind") == "operate" and len(c.get("args", [])) in (1, 2) and c["op"] in ul.UN_OPS + ul.BIN_OPS:
             t = [("un" if len(c["args"]) == 1 else "bin"), c["op"]] + [ul.leaf(a) for a in c["args"]]
             todo.append({"history": c.get("history", []), "tree": t, "frac": False})
         elif c and s.get("kind") == "session":
-            todo.append({"steps": c["steps"]})
+            todo.append({"steps": c["steps"], "style": c.get("style")})
     todo += [c["case"] for c in ul.load_corpus(ID) if c.get("kind") in ("tree", "session")]    # incl. {"session": [...]} journals
     todo += [{"steps": st} for st in ul.session_templates()]
     scope = small_scope_cases()
@@ -380,11 +384,12 @@ def search(ctx, suspects, budget):
         elif time.time() - t0 > budget:
             break
         elif rng.random() < 0.35:
-            case = {"steps": ul.gen_session(rng)}
+            case = {"steps": ul.gen_session(rng), "style": ul.rand_style(rng, 0.6)}
             n_sessions += 1
         else:
             h, t = gen_tree_case(rng)
-            case = {"history": h, "tree": t, "frac": rng.random() < 0.08, "clear": rng.random() < 0.15}
+            case = {"history": h, "tree": t, "frac": rng.random() < 0.08, "clear": rng.random() < 0.15,
+                    "style": ul.rand_style(rng, 0.6)}
         n += 1
         why = check_case(case)
         own_state = "steps" in case or "session" in case     # these start from a fresh library state themselves
